@@ -101,6 +101,21 @@ def numpy_to_blackbird(A, var_name):
             row_str = "    " + ", ".join(["{}".format(n) for n in row])
             script.append(row_str)
 
+    elif A.dtype == object:
+        # array containing free parameters; the element type is that of
+        # the most general numeric element (float if there is none)
+        numbers = [n for n in A.flatten() if not isinstance(n, sym.Expr)]
+        if any(isinstance(n, complex) for n in numbers):
+            var_type = "complex"
+        elif numbers and all(isinstance(n, (int, np.integer)) for n in numbers):
+            var_type = "int"
+        else:
+            var_type = "float"
+        script = ["{} array {}[{}, {}] =".format(var_type, var_name, *A.shape)]
+        for row in A:
+            row_str = "    " + ", ".join([_scalar_to_blackbird(n) for n in row])
+            script.append(row_str)
+
     else:
         # unknown array type
         raise ValueError("Array {} is of unsupported type {}".format(A, A.dtype))
